@@ -102,6 +102,8 @@ class Angle(object):
         26.3
         """
 
+        if abs(deg) == float("inf"):
+            raise ValueError("Invalid input value")
         if abs(deg) >= 360.0:
             # Extract the sign
             sign = 1.0 if deg >= 0 else -1.0
